@@ -286,3 +286,29 @@ Definition rpo2_min_reported (c : rpo2cfg) : rat :=
 Theorem rpo2_min_with_slope_refuted :
   exists c x, rlt (po2_val (rpo2_q c x)) (rpo2_min_reported c) = true.
 Proof. exists (RP2 4 None LRnd (Some 2)), (-1000000000, 1). vm_compute. reflexivity. Qed.
+
+(* ---- the rounding step, given the value the log kernel returned ---- *)
+Lemma rhe_tie_even a b : 0 < b -> 2 * (a mod b) = b -> Z.even (rhe a b) = true.
+Proof. intros Hb T. unfold rhe. replace (2 * (a mod b) <? b) with false by lia. replace (b <? 2 * (a mod b)) with false by lia.
+  destruct (Z.even (a / b)) eqn:E; [exact E|]. replace (a / b + 1) with (Z.succ (a / b)) by lia.
+  rewrite Z.even_succ. rewrite <- Z.negb_even. rewrite E. reflexivity. Qed.
+Theorem exp_from_log_in_range m mn mx l : mn <= mx -> mn <= exp_from_log m mn mx l <= mx.
+Proof. intros H. unfold exp_from_log, clip. lia. Qed.
+(* "rnd": when the clip does not bind, the exponent is within one half of the logarithm the kernel returned, and an exact tie goes
+   to the EVEN exponent (tf.round); "floor": the exponent is the floor of that logarithm *)
+Theorem exp_from_log_rnd_nearest mn mx l : 0 < rden l -> mn <= rhe (rnum l) (rden l) <= mx ->
+  let e := exp_from_log LRnd mn mx l in
+  2 * Z.abs (e * rden l - rnum l) <= rden l /\ (2 * (rnum l mod rden l) = rden l -> Z.even e = true).
+Proof. intros Hd Hr e. unfold e, exp_from_log, clip. rewrite Z.max_r, Z.min_r by lia.
+  split; [apply rhe_half; exact Hd | intros T; apply rhe_tie_even; assumption]. Qed.
+Theorem exp_from_log_floor mn mx l : 0 < rden l -> mn <= rnum l / rden l <= mx ->
+  let e := exp_from_log LFloor mn mx l in e * rden l <= rnum l < (e + 1) * rden l.
+Proof. intros Hd Hr e. unfold e, exp_from_log, clip. rewrite Z.max_r, Z.min_r by lia.
+  pose proof (Z.div_mod (rnum l) (rden l)) as D. pose proof (Z.mod_pos_bound (rnum l) (rden l) Hd). nia. Qed.
+Theorem chk_exp_from_log_sound m mn mx lb e : chk_exp_from_log m mn mx lb e = 0 ->
+  exists l, f32_dec lb = Some l /\ e = exp_from_log m mn mx l.
+Proof. unfold chk_exp_from_log. destruct (f32_dec lb) as [l|]; [|discriminate].
+  destruct (exp_from_log m mn mx l =? e) eqn:E; [|discriminate]. intros _. exists l. split; [reflexivity|]. apply Z.eqb_eq in E. lia. Qed.
+Example exp_from_log_tie : exp_from_log LRnd (-8) 7 (1, 2) = 0 /\ exp_from_log LRnd (-8) 7 (3, 2) = 2 /\ exp_from_log LRnd (-8) 7 (5, 2) = 2 /\
+  exp_from_log LFloor (-8) 7 (-1, 2) = -1 /\ exp_from_log LRnd (-8) 7 (41, 2) = 7.
+Proof. vm_compute. repeat split; reflexivity. Qed.
